@@ -36,7 +36,18 @@ HandsOver(nd) == \E b \in Range(Post(nd).borrows) : b.ho /\ HasId(Pre(nd).borrow
 (* UpdateLockedBorrows (liquidate.go:388-396) deletes the lend position as soon as AmountIn - collateral <= 0.              *)
 DropsLend(nd) == HandsOver(nd) /\ \E l \in Range(Pre(nd).lends) :
                     ~HasId(Post(nd).lends, l.id) /\ (l.av > 0 \/ \E b \in Range(Post(nd).borrows) : b.lend = l.id /\ ~b.ho)
-C08BooksLend(nd)   == Judged(nd) /\ ~HandsOver(nd) => DBooksLend(Pre(nd), Post(nd))
+(* a first-generation auction ends with the whole principal recovered: the position is deleted and its remaining collateral cTokens go back *)
+(* to the owner. NAMED DEVIATION: UnLiquidateLockedBorrows returns the cTokens without raising the lend position's AvailableToBorrow.       *)
+DebtClearedV1(nd) == nd.a = "BidV1" /\ nd.res.ok /\ \E l \in Range(Log[nd.parent].st.x.v1lv) :
+                        l.ain > 0 /\ HasId(Pre(nd).borrows, l.b) /\ ~HasId(Post(nd).borrows, l.b)
+(* a first-generation auction ends, the position is still unsafe, and the attempt to auction it again fails half-way. NAMED DEVIATION:     *)
+(* UnLiquidateLockedBorrows swallows the error of UpdateLockedBorrows (underwater position: burning the uncapped cTokens fails) after the   *)
+(* published total and the coins have already been moved; the vault is left "complete" without a new auction.                              *)
+ReauctionGaveUpV1(nd) == nd.a = "BidV1" /\ nd.res.ok /\ \E l \in Range(nd.st.x.v1lv) :
+                            l.done /\ ~l.prog /\ \E l0 \in Range(Log[nd.parent].st.x.v1lv) : l0.id = l.id /\ l0.prog
+C08BooksLend(nd)   == Judged(nd) /\ ~HandsOver(nd) /\ ~DebtClearedV1(nd) /\ ~ReauctionGaveUpV1(nd) => DBooksLend(Pre(nd), Post(nd))
+C08BooksLendRG(nd) == Judged(nd) /\ ReauctionGaveUpV1(nd) => DBooksLend(Pre(nd), Post(nd))
+C08BooksLendDC(nd) == Judged(nd) /\ DebtClearedV1(nd) => DBooksLend(Pre(nd), Post(nd))
 C08BooksLendHO(nd) == Judged(nd) /\ HandsOver(nd) /\ ~DropsLend(nd) => DBooksLend(Pre(nd), Post(nd))
 C08BooksLendHD(nd) == Judged(nd) /\ DropsLend(nd) => DBooksLend(Pre(nd), Post(nd))
 C08BooksBorrow(nd) == Judged(nd) /\ nd.a # "LiquidateV1" /\ ~BridgedClose1(nd) => DBooksBorrow(CfgOf(nd), Pre(nd), Post(nd))
@@ -84,6 +95,23 @@ LiveBound(i, liquid) == LET nd == Nd(i) IN
   ~IsRoot(nd) /\ IsBlock(nd) => \A b \in Range(Post(nd).borrows) : BadBlocks(i, b.id, liquid) <= 2 * CeilDiv(MaxLen(i, b.id), CfgOf(nd).batch)
 C09Live(i) == LiveBound(i, TRUE)
 C09LiveAny(i) == LiveBound(i, FALSE)
+(* first generation: the same bounded response counted in RUNS of the first-generation sweep (its begin blocker is called once per Tick of a   *)
+(* first-generation behaviour): an unsafe, enabled borrow is seized within two full rounds of the cursor over the borrow list                  *)
+BadV1(liquid, cfg, S, bid) == IF liquid THEN StillBadV1Liquid(cfg, S, bid) ELSE StillBadV1(cfg, S, bid)
+RECURSIVE BadRunsV1(_, _, _)
+BadRunsV1(i, bid, liquid) ==
+  LET nd == Nd(i) IN
+  IF IsRoot(nd) \/ ~BadV1(liquid, CfgOf(nd), PostS(nd), bid) \/ ~BadV1(liquid, CfgOf(nd), PreS(nd), bid) THEN 0
+  ELSE (IF IsBlock(nd) THEN 1 ELSE 0) + BadRunsV1(nd.parent, bid, liquid)
+RECURSIVE MaxLenV1(_, _)
+MaxLenV1(i, bid) ==
+  LET nd == Nd(i) IN
+  IF IsRoot(nd) \/ ~StillBadV1(CfgOf(nd), PreS(nd), bid) THEN SweepLen(PostS(nd))
+  ELSE LET r == MaxLenV1(nd.parent, bid) IN IF SweepLen(PostS(nd)) > r THEN SweepLen(PostS(nd)) ELSE r
+LiveBoundV1(i, liquid) == LET nd == Nd(i) IN
+  ~IsRoot(nd) /\ CfgOf(nd).v1 /\ IsBlock(nd) => \A b \in Range(Post(nd).borrows) : BadRunsV1(i, b.id, liquid) <= 2 * CeilDiv(MaxLenV1(i, b.id), CfgOf(nd).batch1)
+C09LiveV1(i) == LiveBoundV1(i, TRUE)
+C09LiveV1Any(i) == LiveBoundV1(i, FALSE)
 
 (* ---------------------------------------------------------------- C10 (lend-initiated Dutch auctions) *)
 BidOk(nd) == ~IsRoot(nd) /\ nd.a = "Bid" /\ nd.res.ok /\ HasAuc(PreS(nd), nd.args.auc) /\ AucOf(PreS(nd), nd.args.auc).lend /\ AucOf(PreS(nd), nd.args.auc).dutch
@@ -263,9 +291,9 @@ Conf(nd) ==
 ConfModel(nd) == ~IsRoot(nd) /\ Walk(nd) /\ "mok" \in DOMAIN nd.res => Act(nd, WalkEnv(nd)).ok = nd.res.mok
 
 ConfNames == {"Conf_" \o x : x \in Predicted}
-Formulas == <<"C08_BooksRoot", "C08_BooksLend", "C08_BooksLendHandOver", "C08_BooksLendHandOverDrop", "C08_BooksBorrow", "C08_BooksBorrowV1Msg", "C08_BooksBorrowV1BridgedClose", "C08_Ltv", "C08_LtvMismatched", "C08_LtvOpenBridged", "C08_LtvDrawBridged", "C08_PoolHeld",
+Formulas == <<"C08_BooksRoot", "C08_BooksLend", "C08_BooksLendHandOver", "C08_BooksLendHandOverDrop", "C08_BooksLendV1DebtCleared", "C08_BooksLendV1ReauctionGaveUp", "C08_BooksBorrow", "C08_BooksBorrowV1Msg", "C08_BooksBorrowV1BridgedClose", "C08_Ltv", "C08_LtvMismatched", "C08_LtvOpenBridged", "C08_LtvDrawBridged", "C08_PoolHeld",
               "C08_NoRelease",
-              "C09_BorrowOnlyUnsafe", "C09_BorrowEnabled", "C09_BorrowSeizeExact", "C09_BorrowCustodyMoves", "C09_BorrowLive", "C09_BorrowLiveIlliquid",
+              "C09_BorrowOnlyUnsafe", "C09_BorrowEnabled", "C09_BorrowSeizeExact", "C09_BorrowCustodyMoves", "C09_BorrowLive", "C09_BorrowLiveIlliquid", "C09_BorrowLive_V1", "C09_BorrowLiveIlliquid_V1",
               "C10_LendPaidWithinTarget", "C10_LendReceivedWithinSeized", "C10_LendPostedPrice", "C10_LendRemaining", "C10_LendCustody",
               "C10_LendPriceFalls", "C10_LendPriceInBand", "C10_LendStartPrice", "C10_LendProceeds", "C10_LendProceedsEmode",
               "C10_LendBridgedReturned", "C10_LendOwnerGetsRest", "C10_LendRecords",
@@ -281,6 +309,8 @@ Holds(f, i) ==
     [] f = "C08_BooksLend" -> C08BooksLend(nd)
     [] f = "C08_BooksLendHandOver" -> C08BooksLendHO(nd)
     [] f = "C08_BooksLendHandOverDrop" -> C08BooksLendHD(nd)
+    [] f = "C08_BooksLendV1DebtCleared" -> C08BooksLendDC(nd)
+    [] f = "C08_BooksLendV1ReauctionGaveUp" -> C08BooksLendRG(nd)
     [] f = "C08_BooksBorrow" -> C08BooksBorrow(nd)
     [] f = "C08_BooksBorrowV1Msg" -> C08BooksBorrowV1(nd)
     [] f = "C08_BooksBorrowV1BridgedClose" -> C08BooksBorrowBr(nd)
@@ -296,6 +326,8 @@ Holds(f, i) ==
     [] f = "C09_BorrowCustodyMoves" -> C09Custody(nd)
     [] f = "C09_BorrowLive" -> C09Live(i)
     [] f = "C09_BorrowLiveIlliquid" -> C09LiveAny(i)
+    [] f = "C09_BorrowLive_V1" -> C09LiveV1(i)
+    [] f = "C09_BorrowLiveIlliquid_V1" -> C09LiveV1Any(i)
     [] f = "C10_LendPaidWithinTarget" -> C10PaidWithin(nd)
     [] f = "C10_LendReceivedWithinSeized" -> C10RecvWithin(nd)
     [] f = "C10_LendPostedPrice" -> C10Posted(nd)
@@ -372,10 +404,13 @@ Stats == PrintT(<<"STATS", [nodes |-> NLog,
            safeLiquidateRequests |-> Count(LAMBDA nd : Judged(nd) /\ nd.a = "Liquidate" /\ nd.res.ok /\ SeizedB(PreS(nd), PostS(nd)) = {}),
            nearSafeRequests |-> Count(LAMBDA nd : Judged(nd) /\ nd.a = "Liquidate" /\ nd.res.ok /\ HasId(Pre(nd).borrows, nd.args.b) /\
                                    LET b == GetId(Pre(nd).borrows, nd.args.b) IN
-                                   ~b.liq /\ HasId(Post(nd).borrows, b.id) /\ ~GetId(Post(nd).borrows, b.id).ho /\ UnsafeWith(CfgOf(nd), Pre(nd), [b EXCEPT !.out = (@ * 11) \div 10], b.iT)),
+                                   ~b.liq /\ HasId(Post(nd).borrows, b.id) /\ ~GetId(Post(nd).borrows, b.id).ho /\ UnsafeWith(CfgOf(nd), Pre(nd), [b EXCEPT !.out = @ + (@ \div 10)], b.iT)),
            nearSafeBridged2 |-> Count(LAMBDA nd : Judged(nd) /\ nd.a \in {"Liquidate", "Tick"} /\ \E b \in Range(Pre(nd).borrows) :
                                    (nd.a = "Tick" \/ nd.args.b = b.id) /\ ~b.liq /\ b.bram > 0 /\ b.bra = 3 /\ HasId(Post(nd).borrows, b.id) /\ ~GetId(Post(nd).borrows, b.id).ho
-                                   /\ UnsafeWith(CfgOf(nd), Pre(nd), [b EXCEPT !.out = (@ * 11) \div 10], b.iT)),
+                                   /\ UnsafeWith(CfgOf(nd), Pre(nd), [b EXCEPT !.out = @ + (@ \div 10)], b.iT)),
+           nearSafeEmode |-> Count(LAMBDA nd : Judged(nd) /\ nd.a \in {"Liquidate", "Tick"} /\ ~CfgOf(nd).v1 /\ ~PreS(nd).x.ks /\ \E b \in Range(Pre(nd).borrows) :
+                                   (nd.a = "Tick" \/ nd.args.b = b.id) /\ ~b.liq /\ HasPair(CfgOf(nd), b.pair) /\ PairC(CfgOf(nd), b.pair).emode /\ HasId(Post(nd).borrows, b.id) /\ ~GetId(Post(nd).borrows, b.id).ho
+                                   /\ UnsafeWith(CfgOf(nd), Pre(nd), [b EXCEPT !.out = @ + (@ \div 9)], b.iT)),
            killedSteps |-> Count(LAMBDA nd : Judged(nd) /\ PreS(nd).x.ks /\ nd.a \in {"Liquidate", "Tick"}),
            blocks |-> Count(LAMBDA nd : ~IsRoot(nd) /\ IsBlock(nd)),
            longWaits |-> Cardinality({i \in 1..NLog : ~IsRoot(Nd(i)) /\ IsBlock(Nd(i)) /\ \E b \in Range(Post(Nd(i)).borrows) : BadBlocks(i, b.id, TRUE) >= 2}),
@@ -397,6 +432,12 @@ Stats == PrintT(<<"STATS", [nodes |-> NLog,
            v1Overwrites |-> Count(LAMBDA nd : Judged(nd) /\ IsV1(nd) /\ OverwritesVault(PreS(nd), PostS(nd))),
            v1NotJudgedAfterOverwrite |-> Cardinality({i \in 1..NLog : ~Sane(i)}),
            v1BridgedCloses |-> Count(BridgedClose1),
+           v1LongWaits |-> Cardinality({i \in 1..NLog : ~IsRoot(Nd(i)) /\ CfgOf(Nd(i)).v1 /\ IsBlock(Nd(i)) /\ \E b \in Range(Post(Nd(i)).borrows) : BadRunsV1(i, b.id, TRUE) >= 2}),
+           v1SmallBatchRuns |-> Count(LAMBDA nd : ~IsRoot(nd) /\ CfgOf(nd).v1 /\ IsBlock(nd) /\ SweepLen(PreS(nd)) > CfgOf(nd).batch1),
+           v1CursorWraps |-> Count(LAMBDA nd : ~IsRoot(nd) /\ CfgOf(nd).v1 /\ IsBlock(nd) /\ SweepLen(PreS(nd)) > CfgOf(nd).batch1 /\ PostS(nd).x.off1 < PreS(nd).x.off1),
+           v1LateSeizures |-> Count(LAMBDA nd : Judged(nd) /\ nd.a = "Tick" /\ SweepLen(PreS(nd)) > CfgOf(nd).batch1 /\ \E b \in SeizedV1(PreS(nd), PostS(nd)) : TRUE),
+           v1ReauctionGaveUp |-> Count(LAMBDA nd : Judged(nd) /\ ReauctionGaveUpV1(nd)),
+           v1DebtCleared |-> Count(LAMBDA nd : Judged(nd) /\ DebtClearedV1(nd)),
            v1Bids |-> Count(BidOk1),
            v1PartialBids |-> Count(LAMBDA nd : BidOk1(nd) /\ ~Closing1(nd)),
            v1ClosingBids |-> Count(Closing1),
